@@ -298,6 +298,7 @@ _file_strategy = S.file_spec(min_segments=1, max_segments=5, max_channels=3, max
 _long_strategy = S.file_spec(min_segments=101, max_segments=130, max_channels=3, max_n=2, max_chunks=2, values='unique',
                              props=False, pad=False, nodata_entries=False, names='simple', max_groups=1,
                              types=['i16', 'f64', 'str', 'u8'], absent=False)
+_twin_strategy = S.twin_long_file()
 _small = st.integers(0, 10 ** 4)
 _opt = st.one_of(st.none(), _small)
 
@@ -392,6 +393,8 @@ def _run_machines(n_total, file_strategy, steps):
 def jobs(tier):
     if tier == 'quick':
         return [Job('histories', 'custom', _run_machines(6000, _file_strategy, 30)),
-                Job('long_file_histories', 'custom', _run_machines(48, _long_strategy, 20))]
+                Job('long_file_histories', 'custom', _run_machines(48, _long_strategy, 20)),
+                Job('twin_offset_table_histories', 'custom', _run_machines(64, _twin_strategy, 20))]
     return [Job('histories', 'custom', _run_machines(150000, _file_strategy, 50)),
-            Job('long_file_histories', 'custom', _run_machines(3000, _long_strategy, 40))]
+            Job('long_file_histories', 'custom', _run_machines(3000, _long_strategy, 40)),
+            Job('twin_offset_table_histories', 'custom', _run_machines(3000, _twin_strategy, 40))]
